@@ -11,11 +11,29 @@ def close(a, b, rtol=RTOL, atol=ATOL):
     return bool(np.allclose(np.asarray(a, dtype=float), np.asarray(b, dtype=float), rtol=rtol, atol=atol))
 
 
+SEQUENCE_MODE = False      # set by driver._SeqFn: several cases in one process, caches cleared the way the API does by default
+_SEQ_TEMPLATES = []
+
+
+def end_of_sequence_item():
+    """What a user does between two models in one session: pyrates.clear(model) for every model built (public API)."""
+    from pyrates import clear, clear_frontend_caches
+    for t in _SEQ_TEMPLATES:
+        try:
+            clear(t)
+        except Exception:
+            pass
+    del _SEQ_TEMPLATES[:]
+    clear_frontend_caches()
+
+
 def compile_model(model, vectorize=False, backend="default", inputs=None, style=0, tpl=None, step_size=1e-3, **kw):
     from pyrates import CircuitTemplate  # noqa: F401  (ensures the tree under test is the imported one)
     tpl = tpl if tpl is not None else mdl.build_templates(model, style=style)
     kwargs = dict(func_name="vf", step_size=step_size, backend=backend, vectorize=vectorize, verbose=False,
                   clear=False, in_place=True, float_precision="float64", file_name="vf_mod")
+    if SEQUENCE_MODE:
+        _SEQ_TEMPLATES.append(tpl)       # cleared through the public pyrates.clear(...) once the case is finished
     kwargs.update(kw)
     if inputs:
         kwargs["inputs"] = inputs
@@ -153,7 +171,7 @@ def run_model(model, T, dt, dts=None, solver="euler", vectorize=False, backend="
     if outputs is None:
         outputs = {f"v{i}": p for i, p in enumerate(svars)}
     kwargs = dict(simulation_time=T, step_size=dt, solver=solver, outputs=outputs, vectorize=vectorize, backend=backend,
-                  verbose=False, clear=False, in_place=True, float_precision="float64", cutoff=cutoff)
+                  verbose=False, clear=bool(SEQUENCE_MODE), in_place=True, float_precision="float64", cutoff=cutoff)
     if dts is not None:
         kwargs["sampling_step_size"] = dts
     if inputs:
@@ -640,7 +658,7 @@ def check_population(ps, T=0.5, dt=0.05, solver="euler"):
                 for l, k, _ in ps["ops"][o]["eqs"]:
                     if k == "de":
                         outs[f"{pname}.{o}.{l}"] = f"{pname}/{o}/{l}"
-        df = tpl.run(simulation_time=T, step_size=dt, solver=solver, outputs=outs, verbose=False, clear=False, in_place=True,
+        df = tpl.run(simulation_time=T, step_size=dt, solver=solver, outputs=outs, verbose=False, clear=bool(SEQUENCE_MODE), in_place=True,
                      float_precision="float64")
     except Exception as exn:
         return [dict(clause="the population circuit compiles and runs", observed=f"{type(exn).__name__}: {exn}")]
